@@ -99,7 +99,8 @@ CLAIMED["C02"] = (
     "strictly increasing, no null key labelled; (c) the group-sorted indexer (contiguous/chunked codes, every label order) lists exactly the non-null "
     "rows group by group in ascending position and sizes equal count_ikey; (e) factorize_range_index gives code i to row i; (g) GroupBy.groups lists per "
     "label exactly the ascending positions of its rows (labels without rows absent) and ikey_count adds up to the non-null rows, for symbolic codes on "
-    "contiguous and chunked states; N<=4 (quick), N<=6 (thorough)",
+    "contiguous and chunked states; (h) the manual sort and the boolean route of factorize_1d; (i) factorize_arrow_arr on a dictionary-typed arrow "
+    "ChunkedArray with different per-chunk dictionaries (contract model of the pyarrow objects); N<=4 (quick), N<=6 (thorough)",
     "pandas/pyarrow 1-D factorizers and drop_duplicates/get_indexer assumed by contract (factorize_1d stubbed); chunk-local codes/pointer tables under C13/C03",
     "DESIGN.md 4 C02")
 
